@@ -221,6 +221,26 @@ FactorAllreducedOncePerUpdate(c, P) ==
            \/ ReducedBetween(c, P, r, lo, hi)
                  = EventsBetween(c, lo, hi) * AllFactorElems(c)
 
+\* second-order data travels with the element counts of the configuration:
+\* n(n+1)/2 per symmetric n x n inverse under symmetry-aware mode, dense
+\* eigenvector matrices, eigenvalue vectors, pre-divided products otherwise
+AllowedInvSizes(c) ==
+    UNION {IF c.method = "inverse"
+           THEN {FactorElems(c, c.layers[i].a), FactorElems(c, c.layers[i].g)}
+           ELSE IF c.prediv
+           THEN {c.layers[i].a * c.layers[i].a, c.layers[i].g * c.layers[i].g,
+                 c.layers[i].g * c.layers[i].a}
+           ELSE {c.layers[i].a * c.layers[i].a, c.layers[i].g * c.layers[i].g,
+                 c.layers[i].a, c.layers[i].g} : i \in 1..NL(c)}
+InvBcastSizes(c, P) ==
+    \A r \in World(c) : \A j \in DOMAIN P[r + 1] :
+        (P[r + 1][j].kind = "broadcast" /\ P[r + 1][j].dt = "i")
+            => P[r + 1][j].numel \in AllowedInvSizes(c)
+GradBcastSizes(c, P) ==
+    \A r \in World(c) : \A j \in DOMAIN P[r + 1] :
+        (P[r + 1][j].kind = "broadcast" /\ P[r + 1][j].dt = "g")
+            => \E i \in 1..NL(c) : P[r + 1][j].numel = c.layers[i].g * c.layers[i].a
+
 \* C03 at the level of the K-FAC protocol: all members of a group issue the
 \* same sequence of operations on it (kind, root, element count, dtype class)
 OnGroup(P, r, grp) ==
@@ -245,6 +265,8 @@ Clauses(c, P) ==
     /\ FactorAllreducedOncePerUpdate(c, P)
     /\ MatchAcrossRanks(c, P)
     /\ MembersOnly(c, P)
+    /\ InvBcastSizes(c, P)
+    /\ GradBcastSizes(c, P)
 
 Derived(c) == [r \in 1..c.W |-> Prog(c, r - 1)]
 
@@ -261,6 +283,8 @@ T_NothingW1 == NothingWhenWorldIsOne(C, C.trace)
 T_OncePerUpdate == FactorAllreducedOncePerUpdate(C, C.trace)
 T_Match == MatchAcrossRanks(C, C.trace)
 T_Members == MembersOnly(C, C.trace)
+T_InvSizes == InvBcastSizes(C, C.trace)
+T_GradSizes == GradBcastSizes(C, C.trace)
 \* conformance: the recorded sequences are exactly the derived ones
 Conforms == C.trace = Derived(C)
 EmitDerived == PrintT(ToJson([ci |-> ci, derived |-> Derived(C)]))
